@@ -1043,7 +1043,8 @@ fn exec_cmd(
 		}
 		Cmd::Echo(args) => {
 			if args.is_empty() {
-				println!();
+				// (like every other writer here: a reader that has gone away is no reason to panic)
+				writeln!(io::stdout()).ok();
 				return Flow::Next
 			}
 			let mut display_args = vec![];
@@ -1053,7 +1054,7 @@ fn exec_cmd(
 				display_args.push(value.to_string());
 			}
 			let output = display_args.join(" ");
-			println!("{output}");
+			writeln!(io::stdout(), "{output}").ok();
 		}
 		// -r <N> <R>
 		Cmd::Repeat{ body, count } => {
